@@ -45,7 +45,7 @@ def signature(case, ck, log, fault):
 
 
 def plan(tier, seed):
-    return F.std_plan(tier, seed, 1600, 60000)
+    return F.std_plan(tier, seed, 6400, 80000)
 
 
 def run_shard(desc):
